@@ -66,8 +66,9 @@ func (g *hostGroup) pop() {
 	g.popN(1)
 }
 
+// popN removes the n most recently added hosts.
 func (g *hostGroup) popN(n int) {
-	g.hosts = g.hosts[:len(g.hosts)-n]
+	g.hosts = g.hosts[:len(g.hosts)-n*g.hostSize]
 }
 
 func (w *Writer) write(what interface{}) error {
